@@ -20,7 +20,7 @@ def run(tier):
     chk.add_tlc(r, "automaton_mc")
     if r["violated"]:
         chk.violation("spec:schema", "StatsSchema automaton: %s" % r["violated"], r["out"][-2000:])
-    n = 240 if tier == "quick" else 2400
+    n = 240 if tier == "quick" else 12000
     raw = record_runs(scenarios.schema_scenarios(C.seed() * 2750159 + 21, n), "c16")
     runs = []
     lines = nontriv = 0
